@@ -15,23 +15,23 @@ CLAIMED = {
  "C03": ("2.C03", "Sample-arithmetic units of lossless Modular decoding (predictors and properties through the real incremental state, inverse RCT for all types and permutations, inverse squeeze, sample ops) decided against transcriptions of ISO/IEC 18181-1 Annex H: equality with the exact formulas and decode(encode(x)) == x for all values within bounds; not the composed image decoder."),
  "C12": ("2.C12", "Narrow (i16) and wide (i32) scalar kernels (tendency, inverse squeeze h/v, RCT, sample ops) produce identical samples for all inputs under the semantic '16 bits suffice' precondition (12 bits + sign); SIMD drivers outside."),
  "C04": ("2.C04", "Units of the entropy decoder against the format: hybrid-integer configuration parsing and value expansion as the exact inverse of the reference encoder for every configuration and every u32, field widths, ANS/prefix table units where tractable; not whole streams."),
+ "C05": ("2.C05", "Region algebra used by frame composition (intersection, merge, contains, translate) decided against set semantics for all rectangles within the format's coordinate limits; blend kernels: see evidence (float kernels where tractable)."),
+ "C06": ("2.C06", "Integer geometry that makes region-of-interest rendering sound: every resampling/padding/alignment step and the composed padding of the colour stage contain the dependency footprint of every requested pixel, for all rectangles and stage selections within bounds; group partition of the sample grid. Pixel equality of renders is outside."),
  "C10": ("2.C10", "One-step functional equivalence of the real container state machine with a reference semantics written from the format rules, from every valid parser state (inductive: successor states are shown valid), for every buffer up to 20 bytes of any length: events, payload extents, consumed bytes, successor state, and rejection of every ill-formed layout."),
  "C11": ("2.C11", "For every buffer within bounds and every cut, reads on the prefix equal the reads on the full buffer or are classified as unexpected EOF."),
  "C13": ("2.C13", "Inductive step of the allocation accounting from an arbitrary tracker state, and exact charge/release of AlignedGrid allocations under every limit."),
  "C14": ("2.C14", "Round trip / differential against the spec's decoding procedure for U32, U64, F16, Enum, ZeroPadToByte and the header bundles, for every encoding within bounds, including exact bit counts."),
 }
 NA = {
- "C05": "not built yet (planned: blend kernels and region arithmetic, DESIGN 2.C05)",
- "C06": "not built yet (planned: region padding geometry, DESIGN 2.C06)",
  "C07": "quantifier is thread schedules and pool sizes; Kani/CBMC do not model threads, rayon or relaxed atomics, and no sequential unit decides schedule independence (the disjoint-partition premise is checked under C02)",
- "C08": "not built yet (planned: render-handle typestate under injected failure, DESIGN 2.C08)",
+ "C08": "symbolic execution of the real render handle (state.rs / RenderedImage::blend) does not finish: every assignment to FrameRender<S> expands the drop glue of InProgress(Box<RenderCache<S>>) (LfGlobal, HfGlobal, HashMap<LfGroup>): >15 min in symex with all outcomes concrete and unwind 2 (harness kept in harness/src/c_render.rs, not compiled). The defect this property is about was found by reading and confirmed natively (finding F03, fixed).",
  "C09": "not built yet (planned: one-step commutation of the container parser and Frame::feed_bytes, DESIGN 2.C09)",
  "C15": "not built yet (planned: FrameBuffer orientation maps and sample conversion, DESIGN 2.C15)",
  "C16": "not built yet (planned: small DCTs bit-precise vs cosine sums, DESIGN 2.C16)",
  "C17": "not built yet (planned: JPEG bit writer / Huffman code units, DESIGN 2.C17)",
  "C18": "not built yet (planned: decode_icc vs spec interpreter, DESIGN 2.C18)",
  "C19": "not built yet (planned: integer-level facts only; transcendental curves are outside CBMC's reach, DESIGN 2.C19)",
- "C20": "not built yet (planned: monitor obligations of the render handle, sequentialised, DESIGN 2.C20)",
+ "C20": "quantifier is thread interleavings; Kani/CBMC do not model threads, and the sequentialised monitor obligations need the same render-handle harness as C08, whose symbolic execution does not finish (see C08).",
 }
 try:
     exec(open(os.path.join(V, "bin", "manifest_table.py")).read())
